@@ -561,112 +561,133 @@ func init() {
 				}
 			}
 		}
-		for n := 1; n <= 5; n++ {
-			for start := range tnames {
-				for _, v := range vectors[:1+len(faultKinds)+len(faultKinds)*len(faultKinds)] {
-					evals++
-					classes[fmt.Sprintf("submit|%d|%s|%s", n, tnames[start], strings.Join(v, ","))] = true
-					warm2()
-					select {
-					case <-recv:
-					case <-time.After(20 * time.Second):
+		// exact=false: every transaction of a sequence gets a distinguishing last byte; exact=true: the payload
+		// shapes as they are, each submitted twice in a row (byte-identical consecutive transactions, truly empty ones)
+		seqTx := func(exact bool, start, k int) []byte {
+			if exact {
+				return append([]byte{}, txs[tnames[(start+k/2)%len(tnames)]]...)
+			}
+			return append(append([]byte{}, txs[tnames[(start+k)%len(tnames)]]...), byte(k))
+		}
+		for _, exact := range []bool{false, true} {
+			for n := 1; n <= 5; n++ {
+				if exact && n < 2 {
+					continue
+				}
+				for start := range tnames {
+					vs := vectors[:1+len(faultKinds)+len(faultKinds)*len(faultKinds)]
+					if exact {
+						vs = vectors[:1]
 					}
-					drain(recv)
-					var sent [][]byte
-					var okSent [][]byte
-					s2.set(v)
-					for k := 0; k < n; k++ {
-						tx := append([]byte{}, txs[tnames[(start+k)%len(tnames)]]...)
-						tx = append(tx, byte(k))
-						buf := append([]byte{}, tx...)
-						err := appSide.SubmitTx(buf)
-						for i := range buf {
-							buf[i] ^= 0xff // the caller reuses its buffer
-						}
-						sent = append(sent, tx)
-						if err == nil {
-							okSent = append(okSent, tx)
-						} else if !(k == 0 && allFail(v)) && !strings.Contains(strings.Join(v, ","), "before") && !strings.Contains(strings.Join(v, ","), "after") && !strings.Contains(strings.Join(v, ","), "reply") {
-							viol("error-although-undisturbed:SubmitTx", fmt.Sprintf("SubmitTx #%d of %d returned %v without any fault", k, n, err), nil)
-						}
-						if k == 0 && allFail(v) && err == nil {
-							viol("empty-success:SubmitTx", fmt.Sprintf("SubmitTx with faults %v: all attempts cut but no error", v), map[string]interface{}{"faults": v})
-						}
-					}
-					// wait (generously) until as many transactions arrived as were acknowledged, then take what else is there
-					var got [][]byte
-					deadline := time.After(20 * time.Second)
-				waitLoop:
-					for len(got) < len(okSent) {
+					for _, v := range vs {
+						evals++
+						classes[fmt.Sprintf("submit|%v|%d|%s|%s", exact, n, tnames[start], strings.Join(v, ","))] = true
+						warm2()
 						select {
-						case t := <-recv:
-							got = append(got, t)
-						case <-deadline:
-							break waitLoop
+						case <-recv:
+						case <-time.After(20 * time.Second):
 						}
-					}
-					time.Sleep(time.Millisecond)
-					got = append(got, drain(recv)...)
-					// every acknowledged transaction arrived byte-identical; first arrivals keep the submission order
-					pos := 0
-					for _, tx := range okSent {
-						found := false
-						for pos < len(got) {
-							if bytes.Equal(got[pos], tx) {
-								found = true
+						drain(recv)
+						var sent [][]byte
+						var okSent [][]byte
+						s2.set(v)
+						for k := 0; k < n; k++ {
+							tx := seqTx(exact, start, k)
+							buf := append([]byte{}, tx...)
+							err := appSide.SubmitTx(buf)
+							for i := range buf {
+								buf[i] ^= 0xff // the caller reuses its buffer
+							}
+							sent = append(sent, tx)
+							if err == nil {
+								okSent = append(okSent, tx)
+							} else if !(k == 0 && allFail(v)) && !strings.Contains(strings.Join(v, ","), "before") && !strings.Contains(strings.Join(v, ","), "after") && !strings.Contains(strings.Join(v, ","), "reply") {
+								viol("error-although-undisturbed:SubmitTx", fmt.Sprintf("SubmitTx #%d of %d returned %v without any fault", k, n, err), nil)
+							}
+							if k == 0 && allFail(v) && err == nil {
+								viol("empty-success:SubmitTx", fmt.Sprintf("SubmitTx with faults %v: all attempts cut but no error", v), map[string]interface{}{"faults": v})
+							}
+						}
+						// wait (generously) until as many transactions arrived as were acknowledged, then take what else is there
+						var got [][]byte
+						deadline := time.After(20 * time.Second)
+					waitLoop:
+						for len(got) < len(okSent) {
+							select {
+							case t := <-recv:
+								got = append(got, t)
+							case <-deadline:
+								break waitLoop
+							}
+						}
+						time.Sleep(time.Millisecond)
+						got = append(got, drain(recv)...)
+						// every acknowledged transaction arrived byte-identical; first arrivals keep the submission order
+						pos := 0
+						for _, tx := range okSent {
+							found := false
+							for pos < len(got) {
+								if bytes.Equal(got[pos], tx) {
+									found = true
+									pos++
+									break
+								}
 								pos++
+							}
+							if !found {
+								viol("acknowledged-transaction-missing-or-reordered", fmt.Sprintf("SubmitTx x%d starting with %s, faults %v: an acknowledged transaction did not reach the node byte-identical and in order (sent %d, acknowledged %d, received %d)", n, tnames[start], v, len(sent), len(okSent), len(got)), map[string]interface{}{"n": n, "first": tnames[start], "faults": v})
 								break
 							}
-							pos++
 						}
-						if !found {
-							viol("acknowledged-transaction-missing-or-reordered", fmt.Sprintf("SubmitTx x%d starting with %s, faults %v: an acknowledged transaction did not reach the node byte-identical and in order (sent %d, acknowledged %d, received %d)", n, tnames[start], v, len(sent), len(okSent), len(got)), map[string]interface{}{"n": n, "first": tnames[start], "faults": v})
-							break
-						}
-					}
-					for _, g := range got {
-						known := false
-						for _, tx := range sent {
-							if bytes.Equal(g, tx) {
-								known = true
+						if len(v) == 0 || strings.Join(v, ",") == strings.Join(vectors[0], ",") {
+							if len(got) != len(sent) {
+								viol("acknowledged-transaction-missing-or-reordered", fmt.Sprintf("SubmitTx x%d starting with %s (exact payloads: %v), no fault: %d submitted and acknowledged, %d received", n, tnames[start], exact, len(sent), len(got)), map[string]interface{}{"n": n, "first": tnames[start], "exact": exact})
 							}
 						}
-						if !known {
-							viol("unknown-transaction-received", fmt.Sprintf("SubmitTx x%d faults %v: the node received a transaction that was never submitted in that form", n, v), map[string]interface{}{"n": n, "faults": v})
+						for _, g := range got {
+							known := false
+							for _, tx := range sent {
+								if bytes.Equal(g, tx) {
+									known = true
+								}
+							}
+							if !known {
+								viol("unknown-transaction-received", fmt.Sprintf("SubmitTx x%d faults %v: the node received a transaction that was never submitted in that form", n, v), map[string]interface{}{"n": n, "faults": v})
+							}
 						}
 					}
-				}
-				// in-process proxy: same sequence, no faults
-				drain(recvIn)
-				var sent [][]byte
-				for k := 0; k < n; k++ {
-					tx := append(append([]byte{}, txs[tnames[(start+k)%len(tnames)]]...), byte(k))
-					buf := append([]byte{}, tx...)
-					in.SubmitTx(buf)
-					for i := range buf {
-						buf[i] ^= 0xff
+					// in-process proxy: same sequence, no faults
+					drain(recvIn)
+					var sent [][]byte
+					for k := 0; k < n; k++ {
+						tx := seqTx(exact, start, k)
+						buf := append([]byte{}, tx...)
+						in.SubmitTx(buf)
+						for i := range buf {
+							buf[i] ^= 0xff
+						}
+						sent = append(sent, tx)
 					}
-					sent = append(sent, tx)
-				}
-				var got [][]byte
-				dl := time.After(20 * time.Second)
-			waitIn:
-				for len(got) < len(sent) {
-					select {
-					case t := <-recvIn:
-						got = append(got, t)
-					case <-dl:
-						break waitIn
+					var got [][]byte
+					dl := time.After(20 * time.Second)
+				waitIn:
+					for len(got) < len(sent) {
+						select {
+						case t := <-recvIn:
+							got = append(got, t)
+						case <-dl:
+							break waitIn
+						}
 					}
-				}
-				got = append(got, drain(recvIn)...)
-				evals++
-				if len(got) != len(sent) {
-					viol("inmem-submit-count", fmt.Sprintf("in-process proxy: %d submitted, %d received", len(sent), len(got)), nil)
-				} else {
-					for i := range got {
-						if !bytes.Equal(got[i], sent[i]) {
-							viol("inmem-submit-differs", "in-process proxy: a transaction arrived different from what was submitted (caller's buffer aliased?)", nil)
+					got = append(got, drain(recvIn)...)
+					evals++
+					if len(got) != len(sent) {
+						viol("inmem-submit-count", fmt.Sprintf("in-process proxy: %d submitted, %d received", len(sent), len(got)), nil)
+					} else {
+						for i := range got {
+							if !bytes.Equal(got[i], sent[i]) {
+								viol("inmem-submit-differs", "in-process proxy: a transaction arrived different from what was submitted (caller's buffer aliased?)", nil)
+							}
 						}
 					}
 				}
@@ -681,7 +702,7 @@ func init() {
 		cov["block_shapes"] = len(blocks)
 		cov["exhaustive"] = true
 		cov["samples"] = samples
-		cov["rule"] = "a real SocketAppProxy (Babble side) and SocketBabbleProxy (application side) over loopback TCP, and the InmemProxy, in front of the same recording handler; a TCP shim between them applies one fault action per request message. Enumerated: payload grammar (blocks with 0..3 transactions of shapes {empty, ASCII, binary with 0x00/0xff/quotes/newlines, invalid UTF-8, 64KB, 1MB}, nil vs empty slices, nil element, 0..2 internal transactions with receipts, 0..2 signatures) x commit responses {nil, empty, 32-byte, binary state hash; 0/2 receipts} x call {CommitBlock, GetSnapshot, Restore, OnStateChanged, SubmitTx sequences of 1..5 per connection} x fault vector over the three attempts in {none, cut before request, cut after request before reply, cut after k reply bytes}^3, prefix-closed (quick: full vectors for a quarter of the block/response pairs, single-fault vectors for the rest). Oracle: the application handler receives a block with the same body hash, signatures and transaction bytes as in-process; Babble receives exactly the returned state hash and receipts; acknowledged transactions arrive byte-identical and in order; nil error only together with the genuine reply, error iff all attempts failed. Additionally the application side becomes unreachable (dials refused) for five consecutive calls, which must all fail, and comes back (the next call must succeed). Faults are connection closes / refusals, never delays"
+		cov["rule"] = "a real SocketAppProxy (Babble side) and SocketBabbleProxy (application side) over loopback TCP, and the InmemProxy, in front of the same recording handler; a TCP shim between them applies one fault action per request message. Enumerated: payload grammar (blocks with 0..3 transactions of shapes {empty, ASCII, binary with 0x00/0xff/quotes/newlines, invalid UTF-8, 64KB, 1MB}, nil vs empty slices, nil element, 0..2 internal transactions with receipts, 0..2 signatures) x commit responses {nil, empty, 32-byte, binary state hash; 0/2 receipts} x call {CommitBlock, GetSnapshot, Restore, OnStateChanged, SubmitTx sequences of 1..5 per connection, with a distinguishing last byte and - without faults - as exact payloads each submitted twice in a row (byte-identical consecutive and truly empty transactions)} x fault vector over the three attempts in {none, cut before request, cut after request before reply, cut after k reply bytes}^3, prefix-closed (quick: full vectors for a quarter of the block/response pairs, single-fault vectors for the rest). Oracle: the application handler receives a block with the same body hash, signatures and transaction bytes as in-process; Babble receives exactly the returned state hash and receipts; acknowledged transactions arrive byte-identical and in order; nil error only together with the genuine reply, error iff all attempts failed. Additionally the application side becomes unreachable (dials refused) for five consecutive calls, which must all fail, and comes back (the next call must succeed). Faults are connection closes / refusals, never delays"
 		rep.Assumptions = []string{"retries after a lost reply may deliver a block / transaction to the other side more than once; the property does not speak about that and it is not flagged"}
 		return rep.Finish()
 	}
